@@ -1,5 +1,6 @@
 import TomlVerif.Model.Numbers
 import TomlVerif.Model.Datetime
+import TomlVerif.Model.SerdeInt
 namespace TomlVerif.Driver
 open TomlVerif TomlVerif.Spec TomlVerif.Model TomlVerif.Model.Numbers
 
@@ -65,20 +66,6 @@ def floatCase (bits : Nat) (disp : Bytes) (mantBits expBits : Nat) : String :=
         if width == 64 then b64 == bits else true
   s!"{hexOut tok} {parsed} dispok:{dispok}"
 
-def fits (kind : String) (n : Int) : Bool :=
-  match kind with
-  | "u8" => 0 ≤ n && n ≤ 255
-  | "i8" => -128 ≤ n && n ≤ 127
-  | "u16" => 0 ≤ n && n ≤ 65535
-  | "i16" => -32768 ≤ n && n ≤ 32767
-  | "u32" => 0 ≤ n && n ≤ 4294967295
-  | "i32" => -2147483648 ≤ n && n ≤ 2147483647
-  | "u64" => 0 ≤ n && n ≤ 18446744073709551615
-  | "i64" => inI64 n
-  | "u128" => 0 ≤ n
-  | "i128" => true
-  | _ => false
-
 def c11 (line : String) : String :=
   match line.splitOn " " with
   | ["i", n] =>
@@ -100,15 +87,19 @@ def c11 (line : String) : String :=
     | some bb, some d => floatCase (bb.foldl (fun a b => a * 256 + b.toNat) 0) d 23 8
     | _, _ => "bad-op"
   | ["so", kind, n] =>
-    -- serializing an integer of any width: exact or an error; the 128-bit widths are not
-    -- implemented by either serializer (serde's default methods), so they always fail
-    match n.toInt? with
-    | some n => if inI64 n && kind != "i128" && kind != "u128" then s!"ok:{n}" else "err"
-    | none => "bad-op"
+    -- serializing an integer of any width: exact or an error (`Model/SerdeInt.lean`, theorems `T11_ser_*`)
+    match n.toInt?, SerdeInt.Kind.ofString? kind with
+    | some n, some k => match SerdeInt.serInt k n with | some m => s!"ok:{m}" | none => "err"
+    | _, _ => "bad-op"
   | ["de", kind, n] =>
-    match n.toInt? with
-    | some n => if inI64 n && fits kind n && kind != "i128" && kind != "u128" then s!"ok:{n}" else "err"
-    | none => "bad-op"
+    match n.toInt?, SerdeInt.Kind.ofString? kind with
+    | some n, some k => match SerdeInt.deInt k n with | some m => s!"ok:{m}" | none => "err"
+    | _, _ => "bad-op"
+  | ["vv", kind, n] =>
+    -- a value of width `kind` handed to `toml::Value`'s visitor by a foreign deserializer (`T11_visit_*`)
+    match n.toInt?, SerdeInt.Kind.ofString? kind with
+    | some n, some k => match SerdeInt.visitInt k n with | some m => s!"ok:{m}" | none => "err"
+    | _, _ => "bad-op"
   | _ => "bad-op"
 
 end TomlVerif.Driver
